@@ -271,12 +271,12 @@ class FlattenUpdate(NodeUpdate):
                        ('no_metadata_on_inner_pieces', 'all_empty(emitted_md) and len(emitted_md) == len(emitted)'),
                        ('awaitables_collected', 'L == flat_aw(emit_rets)'),
                        ('no_own_refcount_effect', 'delta == 0')],
-            typed_locals={'L': K_AW}, props=['C01', 'C03', 'C10', 'C05'], name='pieces')}
+            typed_locals={'L': K_AW}, props=['C01', 'C03', 'C10', 'C05', 'C04'], name='pieces')}
 
     def clauses(self):
         return [
             Clause('C01.emits_every_piece_in_order', ['C01'], text='emitted == pieces(x)'),
-            Clause('C10.metadata_on_last_piece_only', ['C10'],
+            Clause('C10.metadata_on_last_piece_only', ['C10', 'C04'],
                    text='len(emitted_md) == len(emitted) and implies(len(emitted) > 0, emitted_md[-1] == metadata '
                         'and all_empty(emitted_md[:len(emitted_md) - 1]))'),
             Clause('C03.returns_all_awaitables', ['C03'], text='list(result) == flat_aw(emit_rets)'),
